@@ -86,6 +86,14 @@ def _record_one(args):
         return seed, None, (mm.component, mm.msg)
 
 
+def _describe_event(ev):
+    a = {k: v for k, v in ev.items() if k not in ('post', 'out')}
+    if a.get('a') == 'Deliver':
+        m = a['m']
+        return f"Deliver {m['x']} {'response' if m['resp'] else 'request'} mid={m['mid']} to {m['dst']} ({m['body'].get('kind')}){' keep' if a.get('keep') else ''}"
+    return ' '.join(str(v) for v in a.values())
+
+
 def run_traces(verdict, n, depth):
     """Binding B: n seeded random schedules of the two real controllers (not chosen by TLC) are recorded, one event per public call, and validated
     by TLC against IkeTrace.tla (every invariant of Ike.tla after every event).  A rejected trace is diagnosed down to the clause of the trace
@@ -126,7 +134,7 @@ def run_traces(verdict, n, depth):
             ev = traces[i][got]
             what = {k: v for k, v in ev.items() if k not in ('post', 'out')}
             if own == prop:
-                verdict.violation(f'recorded execution (seed {tseeds[i]}) is not a behaviour of Ike.tla: event {got + 1}/{ln} {ikemodel.describe(ev) if "a" in ev else ev} '
+                verdict.violation(f'recorded execution (seed {tseeds[i]}) is not a behaviour of Ike.tla: event {got + 1}/{ln} {_describe_event(ev)} '
                                   f'fails clause "{clause}" of the trace specification', {'event': what, 'reply': ev['out'], 'post': ev['post'], 'clause': clause},
                                   signature={'component': 'trace:' + clause, 'action': ev['a']}, replay={'kind': 'trace', 'seed': tseeds[i], 'depth': depth})
             else:
